@@ -52,7 +52,13 @@ def check(case_args, cases, combos, kind, shuffle, spelling):
     del LOG[:]
     fn = mkfn(kind)
     if spelling == "dict":
-        cs = [dict(zip(case_args, c)) for c in cases]
+        # the key order inside each case dict is the caller's business: vary it (values are looked up by name)
+        cs = []
+        for j, c in enumerate(cases):
+            items = list(zip(case_args, c))
+            if j % 2 == 1:
+                items.reverse()
+            cs.append(dict(items))
         call = lambda: xyz.combo_runner(fn, combos or None, cases=cs, shuffle=shuffle, verbosity=0)
     else:
         call = None
